@@ -32,6 +32,19 @@ limit the *analysis* recursion (term substitution, fixpoint rounds), never a run
       module/class-level initialisers, decorators) + 3/4 (the same may-alias fixpoint as R1 with those objects as sources,
       `deep_attrs` field sensitivity) + structural classification of the inlined (3) return expression of a memoised
       function.
+* R7  (a published view is final): 1 (the `MappingProxyType(..)` constructions found by the provenance walk of R2/R3 plus
+      every one written in a method of the configuration class; mutator calls, item stores/deletes, in-place operators on
+      the wrapped mapping; resolved package callees and the parameter the mapping is bound to) + 3 (def-use: the local
+      names that denote the wrapped mapping - plain copies in both directions -, the locals the proxy is bound to and
+      where they leave the function, followed through reaching definitions; a parameter is followed to the bound argument
+      at every call site) + 2 (CFG reachability from a *publication point* - the statement at which the proxy is stored in
+      an attribute/item, returned, yielded or passed on - to a modification of the wrapped mapping, on a path that does
+      not re-bind the name the modification goes through; loops are not unrolled, a publication inside the filling loop
+      reaches the fill through the back edge) + 4 (a wrapped mapping that is also held by a configuration attribute: the
+      may-alias fixpoint of R1 with the reads of that attribute as sources).  Second clause, same devices (1, 2 and the
+      value-kind domain of R2): a cache slot of an existing configuration that receives a proxy is not bound again by a
+      later statement on the same CFG path.  No exception model is needed: the condition is about the order of the
+      publication and the completion, whatever may fail in between.
 """
 
 from __future__ import annotations
@@ -162,6 +175,15 @@ class _ConfigObjects:
         self._active: Set[tuple] = set()
         self._writes: Optional[List[_Write]] = None
         self._sites: Optional[Dict[str, List[tuple]]] = None
+        self.proxy_sites: List[tuple] = []  # (function, MappingProxyType(..) call) a traced value was found to come from
+
+    def is_proxy_ctor(self, f, e: ast.AST) -> bool:
+        if not isinstance(e, ast.Call):
+            return False
+        if dotted(e.func) in _PROXY_CTORS:
+            return True
+        cal = self.ctx.rs.resolve_call(f, e)
+        return cal.kind == "external" and cal.fq in _PROXY_CTORS
 
     # ------------------------------------------------------------------ receivers
     def is_self(self, f, e) -> bool:
@@ -423,7 +445,9 @@ class _ConfigObjects:
     def _call_kinds(self, f, e: ast.Call, env: Env, depth: int) -> Dict[str, str]:
         d = dotted(e.func)
         cal = self.ctx.rs.resolve_call(f, e)
-        if d in _PROXY_CTORS or (cal.kind == "external" and cal.fq in _PROXY_CTORS):
+        if self.is_proxy_ctor(f, e):
+            if not any(c is e for _g, c in self.proxy_sites):
+                self.proxy_sites.append((f, e))
             return {_P: f"`{src(e)[:40]}`"}
         if d == "getattr" and len(e.args) in (2, 3) and self.is_self(f, e.args[0]):
             ns = self.names(f, e.args[1], env)
@@ -560,9 +584,15 @@ def run(ctx):
         "No mutator call / item store / in-place += / attribute store may reach such a location. Plus: everything a view can "
         "return is a MappingProxyType (value provenance through cache slots and helpers), BeaconConfig attributes are only "
         "bound while the object is under construction or to fill a cache slot with such a proxy, transform()/recover() do "
-        "not modify the state of their HttpDataTransform."
+        "not modify the state of their HttpDataTransform. A view is published complete (R7): no modification of the mapping "
+        "behind a view's proxy is reachable on the CFG from the statement that hands the proxy out (slot store, return, "
+        "argument), and a slot that received a proxy is not bound a second time on the same path - so a failure while a view "
+        "is being computed cannot leave a half-built or provisional view cached."
     )
-    rep.not_decided = ["result equality of every operation before/after (follows from R1-R4 for the step-list channel)", "other channels such as RNG state"]
+    rep.not_decided = ["result equality of every operation before/after (follows from R1-R4 for the step-list channel)", "other channels such as RNG state",
+                       "R7: a reference to the wrapped mapping that is retained by a callee or a container before the publication (only "
+                       "local names, configuration attributes and modifying package callees are followed)",
+                       "which statements can actually raise (R7 demands the publish-last order regardless)"]
     rep.trusted_base = ["CPython ast", "mutator / fresh-copy tables in csverif/alias.py", "call resolution by construction/annotation"]
     rep.assumptions = ["objects handed to external libraries are not mutated by them", "tuples/bytes/str/int elements are immutable"]
     al = _FlowAlias(ctx, make_source(ctx)).run()
@@ -612,6 +642,7 @@ def run(ctx):
     except Exception as e:  # the imported rule crashed on this shape of the views: an analysis error, the other rules still report
         ctx.rep.error(f"imported rule C02.R3 failed: {type(e).__name__}: {e}")
     r6(ctx)
+    r7(ctx)
 
 
 def _holds_mutable(v: ast.AST) -> bool:
@@ -846,3 +877,343 @@ def r4(ctx):
                           f"{name}() does not iterate over an object held by an instance attribute: the step list cannot be located (attributes read: {sorted(reads)})", f.node)
         else:
             ctx.ob("R4", "ALIAS", f, "step lists read-only", True, f"{name}() walks {sorted(iterated)} and does not modify any instance state", f.node)
+
+
+# ============================================================================================== R7: published views are final
+_THROUGH = (ast.Tuple, ast.List, ast.Set, ast.Dict, ast.Starred, ast.IfExp, ast.BoolOp, ast.NamedExpr)
+
+
+def _alts(e: ast.AST) -> List[ast.AST]:
+    """The expressions e may evaluate to, looking through casts, conditional expressions, `or`/`and` and walrus."""
+    e = strip_cast(e)
+    if isinstance(e, ast.IfExp):
+        return _alts(e.body) + _alts(e.orelse)
+    if isinstance(e, ast.BoolOp):
+        return [x for v in e.values for x in _alts(v)]
+    if isinstance(e, ast.NamedExpr):
+        return _alts(e.value)
+    return [e]
+
+
+def _local_bindings(g) -> List[Tuple[ast.AST, str, ast.AST]]:
+    """(statement, local name, value expression) of every plain binding of a local name in g."""
+    out = []
+    for st in statements(g.node):
+        pairs: List[Tuple[ast.AST, Optional[ast.AST]]] = []
+        if isinstance(st, ast.Assign):
+            for t in st.targets:
+                pairs.extend(_target_pairs(t, st.value))
+        elif isinstance(st, ast.AnnAssign) and st.value is not None:
+            pairs.append((st.target, st.value))
+        out.extend((st, t.id, v) for t, v in pairs if isinstance(t, ast.Name) and v is not None)
+    fv = FuncView.of(g.node)
+    for n in body_walk(g.node):
+        if isinstance(n, ast.NamedExpr) and isinstance(n.target, ast.Name):
+            out.append((fv.stmt_of(n), n.target.id, n.value))
+    return out
+
+
+def _same_object_names(g, start: Set[str]) -> Set[str]:
+    """Local names of g that may denote the same object as one of `start` (plain copies `a = b`, in both directions)."""
+    names = set(start)
+    bindings = _local_bindings(g)
+    changed = True
+    while changed:
+        changed = False
+        for _st, t, v in bindings:
+            for x in _alts(v):
+                if isinstance(x, ast.Name) and (x.id in names) != (t in names):
+                    names |= {x.id, t}
+                    changed = True
+    return names
+
+
+class _Final:
+    """Is the mapping behind a read-only proxy complete when the proxy is handed out?
+
+    For one `MappingProxyType(W)` construction in a function g:
+    * the *publication points* are the statements of g at which the proxy leaves g's locals: the statement of the
+      construction itself when the proxy is stored in an attribute / item, returned, yielded or passed on; otherwise the
+      statements that do that with a local the proxy was bound to (followed through reaching definitions);
+    * the *holders* are the local names that may denote the wrapped object W (copies in both directions); where a holder
+      is a parameter the question moves to every call site (the call is then the construction, the bound argument is W);
+    * violated: a modification of the wrapped object through a holder (mutator method, item store/delete, in-place
+      operator, a package callee that modifies the parameter it is bound to) lies on a CFG path from a publication point
+      on which that holder is not re-bound - whoever reads the published view before/after sees different content, and
+      an exception in between leaves the half-filled view published;
+    * a wrapped object that is (also) reachable through an attribute of the configuration is judged by the may-alias
+      analysis of R1 with the reads of that attribute as sources; any other second access path is undecided."""
+
+    def __init__(self, ctx, co: _ConfigObjects):
+        self.ctx, self.co = ctx, co
+        self._attr: Dict[str, list] = {}
+
+    # ---------------------------------------------------------------- publication points
+    def _kill_nodes(self, g, name: str) -> list:
+        cfg, fv, out = self.ctx.cfg(g), FuncView.of(g.node), []
+        for st, _v in assignments_to(g.node, name):
+            s = st if isinstance(st, ast.stmt) else fv.stmt_of(st)
+            if s is not None and cfg.has(s):
+                out.append(cfg.edge_node(s, "iter") if isinstance(s, (ast.For, ast.AsyncFor)) else cfg.node(s))
+        return out
+
+    def publication_points(self, g, call: ast.Call, depth: int = 0) -> Optional[List[ast.AST]]:
+        """Statements at which the value of `call` leaves the locals of g; None when it cannot be followed."""
+        fv = FuncView.of(g.node)
+        st = fv.stmt_of(call)
+        if st is None or not self.ctx.cfg(g).has(st):
+            return None
+        if isinstance(st, ast.Expr) and strip_cast(st.value) is call:
+            return []  # the value is dropped
+        bound = [(s, t) for s, t, v in _local_bindings(g) if s is st and any(x is call for x in _alts(v))]
+        direct = 0  # bindings of the call's value itself (the rest: attribute/item targets, nesting in a larger expression)
+        if isinstance(st, ast.Assign):
+            for t in st.targets:
+                direct += sum(1 for _t, v in _target_pairs(t, st.value) if v is not None and any(x is call for x in _alts(v)))
+        elif isinstance(st, ast.AnnAssign) and st.value is not None:
+            direct = sum(1 for x in _alts(st.value) if x is call)
+        walrus = [n for n in body_walk(g.node) if isinstance(n, ast.NamedExpr) and any(x is call for x in _alts(n.value))]
+        out: List[ast.AST] = []
+        if direct == 0 or len(bound) - len(walrus) < direct or walrus:
+            out.append(st)  # stored into an attribute / item, returned, yielded, passed on or embedded in a larger expression
+        for _s, name in bound:
+            pts = self._uses(g, name, st, depth)
+            if pts is None:
+                return None
+            out.extend(pts)
+        return out
+
+    def _uses(self, g, name: str, defst: ast.AST, depth: int) -> Optional[List[ast.AST]]:
+        """Statements where local `name`, bound at `defst`, leaves the locals of g."""
+        if depth > 6:
+            return None
+        from csverif.alias import FRESH_CALLS
+
+        fv = FuncView.of(g.node)
+        out: List[ast.AST] = []
+        for n in body_walk(g.node):
+            if not (isinstance(n, ast.Name) and n.id == name and isinstance(n.ctx, ast.Load)):
+                continue
+            if not any(s is defst for s, _v in reaching_defs(self.ctx, g, name, n)):
+                continue
+            st = fv.stmt_of(n)
+            p = fv.parent.get(id(n))
+            # plain reads through the proxy
+            if isinstance(p, ast.Attribute) or (isinstance(p, ast.Subscript) and p.value is n) or isinstance(p, (ast.Compare, ast.UnaryOp)):
+                continue
+            if isinstance(p, (ast.If, ast.While)) and p.test is n:
+                continue
+            if isinstance(p, ast.Call) and n is not p.func and dotted(p.func) in FRESH_CALLS and not self.co.is_proxy_ctor(g, p):
+                continue
+            if isinstance(p, (ast.For, ast.AsyncFor, ast.comprehension)) and p.iter is n:
+                continue
+            # a plain copy into another local: follow that local
+            copies = [t for s, t, v in _local_bindings(g) if s is st and any(x is n for x in _alts(v))]
+            top = n
+            while isinstance(fv.parent.get(id(top)), (ast.IfExp, ast.BoolOp, ast.NamedExpr)):
+                top = fv.parent[id(top)]
+            ptop = fv.parent.get(id(top))
+            only_local = copies and isinstance(ptop, (ast.Assign, ast.AnnAssign)) and all(isinstance(t, ast.Name) for t in (ptop.targets if isinstance(ptop, ast.Assign) else [ptop.target]))
+            if only_local:
+                for t in copies:
+                    more = self._uses(g, t, st, depth + 1)
+                    if more is None:
+                        return None
+                    out.extend(more)
+                continue
+            out.append(st)
+        return out
+
+    # ---------------------------------------------------------------- modifications of the wrapped object
+    def modifications(self, g, holders: Set[str], depth: int = 0) -> List[Tuple[ast.AST, str, str]]:
+        """(statement, holder name, description) for every modification of an object denoted by a holder name."""
+        fv = FuncView.of(g.node)
+        out = []
+        for n in body_walk(g.node):
+            if isinstance(n, ast.Call):
+                recv = strip_cast(n.func.value) if isinstance(n.func, ast.Attribute) else None
+                if isinstance(recv, ast.Name) and recv.id in holders and n.func.attr in MUTATORS:
+                    out.append((fv.stmt_of(n), recv.id, f"`{src(n)[:50]}`"))
+                    continue
+                cal = self.ctx.rs.resolve_call(g, n)
+                if cal.kind == "func" and cal.func is not None and depth < 3 and cal.func.fq != g.fq:
+                    for p, (af, a, _env) in self.co.bind(g, n, cal.func, {}).items():
+                        a = strip_cast(a)
+                        if af is g and isinstance(a, ast.Name) and a.id in holders:
+                            inner = self.modifications(cal.func, _same_object_names(cal.func, {p}), depth + 1)
+                            if inner:
+                                out.append((fv.stmt_of(n), a.id, f"`{src(n)[:50]}` ({cal.func.qualname} modifies the mapping it is given: {inner[0][2]})"))
+            elif isinstance(n, (ast.Assign, ast.AugAssign, ast.AnnAssign, ast.Delete)):
+                tgts = n.targets if isinstance(n, (ast.Assign, ast.Delete)) else [n.target]
+                for t, _v in [p for t0 in tgts for p in _target_pairs(t0, None)]:
+                    base = strip_cast(t.value) if isinstance(t, ast.Subscript) else None
+                    if isinstance(base, ast.Name) and base.id in holders:
+                        out.append((n, base.id, f"`{src(n)[:50]}`"))
+                    elif isinstance(n, ast.AugAssign) and isinstance(t, ast.Name) and t.id in holders:
+                        out.append((n, t.id, f"`{src(n)[:50]}` (in-place operator)"))
+        return [(s, h, d) for s, h, d in out if s is not None and self.ctx.cfg(g).has(s)]
+
+    def attr_modifications(self, attr: str) -> list:
+        """Findings of the R1 may-alias analysis with the reads of configuration attribute `attr` as the sources."""
+        if attr not in self._attr:
+            co = self.co
+
+            def is_source(f, e):
+                if isinstance(e, ast.Attribute) and e.attr == attr and isinstance(e.ctx, ast.Load) and co.is_instance(f, e.value):
+                    return f"{src(e)} (the mapping a view proxy wraps)"
+                return None
+
+            al = _FlowAlias(self.ctx, is_source).run()
+            self._attr[attr] = [x for x in al.findings() if x.func.qualname != f"{co.cname}.__init__"]
+        return self._attr[attr]
+
+    def _state_held(self, g, e: ast.AST) -> List[Tuple[str, str]]:
+        if isinstance(e, ast.Attribute) and self.co.is_instance(g, e.value):
+            finds = self.attr_modifications(e.attr)
+            if finds:
+                return [("bad", f"the wrapped mapping is also reachable as attribute {e.attr!r} and `{src(x.node)[:50]}` in {x.func.qualname} modifies it ({x.why[:80]})") for x in finds]
+            return [("ok", f"the wrapped mapping is also reachable as attribute {e.attr!r}; nothing in the package modifies an object read from it")]
+        return [("unk", f"the wrapped mapping is held by `{src(e)[:40]}`, its other users are not followed")]
+
+    # ---------------------------------------------------------------- verdict for one construction
+    def judge(self, g, call: ast.Call, wrapped: Optional[ast.AST], depth: int = 0) -> List[Tuple[str, str]]:
+        if wrapped is None or depth > 4:
+            return [("unk", f"`{src(call)[:40]}` in {g.qualname}: the wrapped mapping cannot be located")]
+        pubs = self.publication_points(g, call)
+        if pubs is None:
+            return [("unk", f"`{src(call)[:40]}` in {g.qualname}: cannot follow where the proxy goes")]
+        if not pubs:
+            return [("ok", "the proxy never leaves the function")]
+        res: List[Tuple[str, str]] = []
+        for w in _alts(wrapped):
+            if isinstance(w, ast.Name):
+                if w.id in params(g.node) or assignments_to(g.node, w.id):
+                    res.extend(self._holders(g, call, pubs, _same_object_names(g, {w.id}), depth))
+                else:
+                    res.append(("unk", f"`{src(call)[:40]}` wraps `{w.id}`, which is not a local of {g.qualname}"))
+            elif isinstance(w, ast.Attribute) or (isinstance(w, ast.Subscript) and not isinstance(w.slice, ast.Slice)):
+                res.extend(self._state_held(g, w))
+            else:
+                res.append(("ok", f"`{src(w)[:40]}` is a new object nobody else names"))
+        return res
+
+    def _holders(self, g, call, pubs, holders: Set[str], depth: int) -> List[Tuple[str, str]]:
+        cfg, fv = self.ctx.cfg(g), FuncView.of(g.node)
+        cst = fv.stmt_of(call)
+        res: List[Tuple[str, str]] = []
+        # where the wrapped object comes from
+        for h in sorted(holders):
+            for st, v in assignments_to(g.node, h):
+                if v is None:
+                    if not isinstance(st, ast.AugAssign):
+                        res.append(("unk", f"the wrapped mapping is bound by a loop / unpacking in {g.qualname}"))
+                    continue
+                for a in _alts(v):
+                    if isinstance(a, ast.Attribute) or (isinstance(a, ast.Subscript) and not isinstance(a.slice, ast.Slice)):
+                        res.extend(self._state_held(g, a))
+            if h in params(g.node):
+                sites = self.co.sites(g)
+                if not sites:
+                    res.append(("unk", f"the wrapped mapping is a parameter of {g.qualname}, for which no call site is located"))
+                for cf, c in sites:
+                    b = self.co.bind(cf, c, g, {})
+                    if h not in b:
+                        res.append(("unk", f"the wrapped mapping is a parameter of {g.qualname} that `{src(c)[:40]}` does not bind explicitly"))
+                    elif b[h][0] is g:
+                        res.append(("unk", f"the wrapped mapping is the default value of a parameter of {g.qualname} (one object for all calls)"))
+                    else:
+                        res.extend(self.judge(cf, c, b[h][1], depth + 1))
+        # modifications that follow a publication point
+        for mst, h, desc in self.modifications(g, holders):
+            kills = self._kill_nodes(g, h)
+            for p in pubs:
+                if cfg.has(p) and cfg.reaches(cfg.node(p), cfg.node(mst), avoiding=kills):
+                    res.append(("bad", f"{desc} in {g.qualname} modifies the mapping behind the proxy after `{src(p)[:60]}` has handed the proxy out"))
+                    break
+        # a second access path to the wrapped object on the same path as the proxy
+        for n in body_walk(g.node):
+            if not (isinstance(n, ast.Name) and n.id in holders and isinstance(n.ctx, ast.Load)):
+                continue
+            top = n
+            while isinstance(fv.parent.get(id(top)), _THROUGH):
+                top = fv.parent[id(top)]
+            p = fv.parent.get(id(top))
+            st = fv.stmt_of(n)
+            if st is None or not cfg.has(st) or cst is None:
+                continue
+            if not (st is cst or cfg.reaches(cfg.node(st), cfg.node(cst)) or cfg.reaches(cfg.node(cst), cfg.node(st))):
+                continue
+            if isinstance(p, (ast.Return, ast.Yield, ast.YieldFrom)):
+                res.append(("unk", f"`{src(st)[:50]}` in {g.qualname} also hands the wrapped mapping out unwrapped"))
+            elif isinstance(p, (ast.Assign, ast.AnnAssign)) and p.value is top:
+                for t, _v in [q for t0 in (p.targets if isinstance(p, ast.Assign) else [p.target]) for q in _target_pairs(t0, None)]:
+                    if isinstance(t, ast.Attribute):
+                        res.extend(self._state_held(g, t))
+                    elif isinstance(t, ast.Subscript) or top is not n:
+                        res.append(("unk", f"`{src(st)[:50]}` in {g.qualname} keeps a second reference to the wrapped mapping"))
+        if not any(k != "ok" for k, _d in res):
+            res.append(("ok", f"the mapping behind `{src(call)[:40]}` is only named by locals of {g.qualname} and is not modified once the proxy has been handed out"))
+        return res
+
+
+def r7(ctx):
+    """A published view is final: the mapping behind every read-only proxy that can become the value of a view is complete
+    when the proxy leaves the function that builds it (no modification of the wrapped mapping can follow the publication),
+    and a cache slot of an existing configuration that has received a proxy is not bound again on the same path.
+    Otherwise a read of a view changes what later reads see, and an exception raised between the publication and the
+    completion leaves a half-built view cached for ever."""
+    co = _config(ctx)
+    # collect the proxy constructions the views' values can come from (provenance walk of R2/R3, idempotent)
+    fmap = ctx.repo.func(f"{CONFIG_CLS}.settings_map")
+    co.returns(fmap, {})
+    for name in VIEWS:
+        co.returns(ctx.repo.func(f"{CONFIG_CLS}.{name}"), {})
+    late: Dict[tuple, List[_Write]] = {}
+    for w in co.writes():
+        if w.how == "store" and w.value is not None and w.f.module.name == co.mod:
+            ks = co.kinds(w.f, w.value, {})
+            if _P in ks and isinstance(w.attr, str) and co.is_self(w.f, w.recv) and not co.fresh(w.f, w.recv, w.node):
+                late.setdefault((w.f.fq, w.attr), []).append(w)
+    fin = _Final(ctx, co)
+    sites = list(co.proxy_sites)
+    for g in ctx.repo.methods(CONFIG_CLS):  # ... and every proxy a method of the configuration builds, traced or not
+        sites.extend((g, c) for c in fn_calls(g.node) if co.is_proxy_ctor(g, c) and not any(c is x for _g, x in sites))
+    per_func: Dict[str, tuple] = {}
+    for g, call in sites:
+        if co._inlined_away(g):
+            continue
+        arg = call.args[0] if call.args and not isinstance(call.args[0], ast.Starred) else None
+        per_func.setdefault(g.fq, (g, []))[1].extend(fin.judge(g, call, arg))
+    ctx.rep.count("view_proxy_constructions", len(sites), floor=1)
+    text = "views are published complete"
+    for _fq, (g, res) in sorted(per_func.items()):
+        bad = sorted({d for k, d in res if k == "bad"})
+        unk = sorted({d for k, d in res if k == "unk"})
+        if bad:
+            ctx.ob("R7", "ALIAS", g, text, False, "; ".join(bad[:4]), g.node)
+        elif unk:
+            ctx.undecided("R7", "ALIAS", g, text, "; ".join(unk[:4]), g.node)
+        else:
+            ctx.ob("R7", "ALIAS", g, text, True, "; ".join(sorted({d for _k, d in res})[:3]), g.node)
+    if not per_func:
+        ctx.undecided("R7", "ALIAS", fmap, text, "no MappingProxyType construction was found on the way to a view: the published mapping cannot be located", fmap.node)
+    # a slot that has received a proxy is not bound again on the same path (the first value would be provisional)
+    by_func: Dict[str, List[str]] = {}
+    funcs = {}
+    for (fq, attr), ws in sorted(late.items()):
+        f = ws[0].f
+        funcs[fq] = f
+        cfg, fv = ctx.cfg(f), FuncView.of(f.node)
+        msgs = by_func.setdefault(fq, [])
+        others = [w for w in co.writes() if w.f is f and co.is_self(f, w.recv) and w.how == "store" and attr in (co.write_names(w) or ())]
+        for a in ws:
+            sa = fv.stmt_of(a.node)
+            for b in others:
+                sb = fv.stmt_of(b.node)
+                if sa is None or sb is None or sa is sb or not (cfg.has(sa) and cfg.has(sb)):
+                    continue
+                if cfg.reaches(cfg.node(sa), cfg.node(sb)):
+                    msgs.append(f"slot {attr!r} receives a proxy in `{src(sa)[:50]}` and is bound again by `{src(sb)[:50]}` on the same path: the first value is provisional, a failure in between leaves it cached")
+    for fq, msgs in sorted(by_func.items()):
+        f = funcs[fq]
+        ctx.ob("R7", "ALIAS", f, "cache slot bound once", not msgs, "; ".join(sorted(set(msgs))[:3]) if msgs else "every cache slot that receives a proxy here is bound at most once on any path", f.node)
